@@ -292,10 +292,26 @@ func (p *grpcConnectionPool) newConnection(ctx context.Context, target *route.Ta
 	conn, err := grpc.DialContext(ctx, target.URL.Host, opts...)
 
 	if err == nil {
-		p.Set(target, conn)
+		conn = p.setIfAbsent(target, conn)
 	}
 
 	return conn, err
+}
+
+// setIfAbsent pools conn unless a concurrent caller has pooled a live connection
+// to the same target in the meantime. In that case conn is closed and the pooled
+// connection is returned, so that no connection is left outside the pool.
+func (p *grpcConnectionPool) setIfAbsent(target *route.Target, conn *grpc.ClientConn) *grpc.ClientConn {
+	p.lock.Lock()
+	defer p.lock.Unlock()
+
+	key := makeGRPCTargetKey(target)
+	if cur := p.connections[key]; cur != nil && cur != conn && cur.GetState() != connectivity.Shutdown {
+		conn.Close()
+		return cur
+	}
+	p.connections[key] = conn
+	return conn
 }
 
 func (p *grpcConnectionPool) Set(target *route.Target, conn *grpc.ClientConn) {
